@@ -75,6 +75,19 @@ CLAIMED = {
         "theorem covers the core fragment (literals, identifiers, infix operators, NOT, parentheses).",
    technique="Coq proof (parser inverse theorem parametric in regenerated table; 3VL laws) + RefDB differential correspondence in vm_compute",
    design="7 (C05)"),
+ "C03": dict(
+   text="Props/C03.v, for all histories: in the reference semantics a session that never commits (ROLLBACK, dropped, left open) can "
+        "be erased from the history - the committed state, every other session and every answer given to anybody else are identical "
+        "(C03_erasure, C03_erasure_chained); a statement, batch or commit that reports an error leaves the state untouched (C03_failure); "
+        "at mechanism level, in every reachable coordinator state a snapshot taken after an abort reads none of the aborted "
+        "transaction's inserts and ignores its deletes (C03_mechanism).  The UPDATE half is refuted on the faithful model "
+        "(C03_update_refuted) and is a recorded finding pinned by a test of the suite.  The engine is tied to the reference on every "
+        "run by generated histories with rollbacks, dropped sessions, failing statements and failing batches, with a model-independent "
+        "before/after oracle; two defects found this way were fixed (delete after a rolled-back delete, rolled-back DROP TABLE).",
+   note="Trusted: Coq kernel; RefDB as specification; Session/TransactionHandle plumbing and storage effects are tied only by the "
+        "correspondence stream; row ids are made explicit in the erasure theorem (they are unobservable).",
+   technique="Coq proof (history-erasure simulation over RefDB; abort invisibility over coordinator/tuple models) + differential correspondence with before/after oracle",
+   design="7 (C03)"),
 }
 NOT_YET = "not claimed yet: model and proofs under construction in this session (see DESIGN.md section 10, build order)"
 
